@@ -56,6 +56,7 @@ inductive Val where
   | err (code : Nat)                -- 0 "timeout", 1 "deadline expired", n+2 user message n
   | int (n : Nat)
   | buf (n : Nat)
+  | sup (sig : Nat) (f : Nat)       -- supervisor event [:ok fiber task-id] (sig 0 = ok, 1 = error, …)
   deriving DecidableEq, Repr, Inhabited
 
 inductive Src where
@@ -182,6 +183,16 @@ def chanPush (cfg : Cfg) (w : World) (f c : Nat) (x : Val) (choice : Bool) : Wor
   | (some r, rest) =>
       (schedule cfg { w with chans := set w.chans c { (w.chans c) with rp := rest } } r.fiber
         (match x with | .kw n => (if r.choice then Val.takeR c n else x) | _ => x) false r.schedId w.now (.chanRead c) r.epoch, false)
+
+/-- the supervisor event of the run phase: `janet_channel_push_with_lock(chan, event, 2)`, skipped when the channel is closed.
+    Mode 2 = pushed by the loop itself, not by a fiber: the item is queued (or handed to the first LIVE reader), nobody is registered
+    as a pending writer even if the channel is over its limit. -/
+def superPush (cfg : Cfg) (w : World) (c : Nat) (x : Val) : World :=
+  if (w.chans c).closed then w
+  else match popLive cfg.pushSkipsStale w (w.chans c).rp with
+    | (none, _) => { w with chans := set w.chans c { (w.chans c) with items := (w.chans c).items ++ [x], rp := [] } }
+    | (some r, rest) =>
+        schedule cfg { w with chans := set w.chans c { (w.chans c) with rp := rest } } r.fiber x false r.schedId w.now (.chanRead c) r.epoch
 
 /-- janet_channel_has_reader -/
 def hasReader (cfg : Cfg) (w : World) (c : Nat) : Bool :=
@@ -348,6 +359,7 @@ inductive Op where
   | procFlag (k : Nat) (x : Bool)
   | thrWait (f k : Nat)
   | thrDone (k : Nat) (v : Val) (isErr : Bool)
+  | superPush (c : Nat) (x : Val)
   | childEnter (f : Nat)
   | childLeave (f : Nat)
   | advance (dt : Nat)
@@ -380,6 +392,7 @@ def step (cfg : Cfg) (w : World) : Op → World
   | .procFlag k x => { w with procX := set w.procX k x }
   | .thrWait f k => thrWait w f k
   | .thrDone k v e => thrDone cfg w k v e
+  | .superPush c x => superPush cfg w c x
   -- the root fiber `f` starts / finishes a child fiber that encloses several of its waits
   | .childEnter f => { w with fibers := set w.fibers f { w.fibers f with depth := (w.fibers f).depth + 1 } }
   | .childLeave f =>
